@@ -82,6 +82,7 @@ Section Decomp.
   Let tmpd := sc_tmpd sc.
   Let tmpf := tmpf_of sc dest.
   Let ov := overwritten fs0 tens sc.
+  Let inv := invalidated fs0 tens sc.
   Let valids0 := map t_valid tens.
 
   (* contract of mkdtemp: a fresh name, nothing at or below it; the destination is not below it and
@@ -101,13 +102,13 @@ Section Decomp.
     SInv tmpd tmpf fs0 s /\ valids s = valids0 /\ Forall2 trel (s_tens s) tens.
   Definition VWeak (s : st) : Prop :=
     forall h, nth_error (valids s) h = nth_error valids0 h
-              \/ (nth_error (valids s) h = Some false /\ In h ov).
+              \/ (nth_error (valids s) h = Some false /\ In h inv).
   Definition InvB (d : list byte) (m : N) (s : st) : Prop :=
     SInv tmpd tmpf (insert fs0 dest (File d m)) s /\ In (OReplace tmpf dest) (s_trace s) /\ VWeak s.
 
   Definition okA (a : act) : bool := okT tmpd tmpf a && negb (is_invalidate a).
   Definition okB (a : act) : bool :=
-    okT tmpd tmpf a && match a with AInvalidate h => existsb (Nat.eqb h) ov | _ => true end.
+    okT tmpd tmpf a && match a with AInvalidate h => existsb (Nat.eqb h) inv | _ => true end.
 
   Lemma InvA_log o s : InvA s -> InvA (log o s).
   Proof. intros [H1 H2]. split; [apply SInv_log; exact H1 | exact H2]. Qed.
@@ -163,7 +164,7 @@ Section Decomp.
   Definition TAILPRE :=
     map ARelease ov ++ AExists dest :: (if exists_ fs0 dest then [ACopymode dest tmpf] else []).
   Definition FIN := [ARemove tmpf; ARmdir tmpd].
-  Definition POST := map AInvalidate ov.
+  Definition POST := plan_post fs0 tens sc.
 
   Lemma plan_tail_split : plan_tail fs0 tens sc = TAILPRE ++ [AReplace tmpf dest].
   Proof. unfold plan_tail, TAILPRE. fold dest. fold tmpf. fold ov. rewrite <- !app_assoc. simpl. rewrite <- ?app_assoc. reflexivity. Qed.
@@ -178,9 +179,12 @@ Section Decomp.
 
   Lemma PRE_okA : forallb okA PRE = true.
   Proof.
-    unfold PRE, plan_pre. simpl. rewrite forallb_app. apply andb_true_intro. split.
+    unfold PRE, plan_pre. simpl. rewrite !forallb_app. apply andb_true_intro. split.
     - destruct (is_link fs0 (sc_req sc)); reflexivity.
-    - simpl. unfold okA at 1. simpl. fold tmpd. rewrite path_eqb_refl. simpl. apply forallb_map_const. intros h. destruct (has_nul (tpath tens h)); reflexivity.
+    - apply andb_true_intro. split.
+      + apply forallb_map_const. intros h. unfold probe_act.
+        destruct (has_nul (tpath tens h)); [reflexivity|]. destruct (is_alias fs0 sc (tpath tens h)); reflexivity.
+      + simpl. unfold okA. simpl. fold tmpd. rewrite path_eqb_refl. reflexivity.
   Qed.
   Lemma B1_okA : prog_all okA B1 = true.
   Proof.
@@ -198,9 +202,16 @@ Section Decomp.
   Proof. unfold FIN, okB. simpl. rewrite !path_eqb_refl. reflexivity. Qed.
   Lemma POST_okB : forallb okB POST = true.
   Proof.
-    unfold POST. assert (H : forall l, (forall h, In h l -> In h ov) -> forallb okB (map AInvalidate l) = true).
-    { induction l as [|h r IH]; intros Hl; simpl; [reflexivity|]. rewrite IH; [|intros; apply Hl; right; assumption].
-      rewrite andb_true_r. unfold okB. simpl. apply existsb_exists. exists h. split; [apply Hl; left; reflexivity|apply Nat.eqb_refl]. }
+    unfold POST, plan_post. simpl.
+    assert (H : forall l, (forall h, In h l -> In h ov) ->
+              forallb okB (flat_map (fun h => ARealpath (tpath tens h)
+                  :: (if realpath_is_dest fs0 tens sc h then [AInvalidate h] else [])) l) = true).
+    { induction l as [|h r IH]; intros Hl; simpl; [reflexivity|].
+      destruct (realpath_is_dest fs0 tens sc h) eqn:E; simpl.
+      - rewrite IH; [|intros; apply Hl; right; assumption]. rewrite andb_true_r.
+        unfold okB. simpl. apply existsb_exists. exists h. split; [|apply Nat.eqb_refl].
+        unfold inv, invalidated. apply filter_In. split; [apply Hl; left; reflexivity|exact E].
+      - apply IH. intros; apply Hl; right; assumption. }
     apply H. auto.
   Qed.
   Lemma small_okA : forallb okA (plan_small small) = true.
@@ -389,14 +400,9 @@ Section Decomp.
 
 
   (* final outcome of plan_save *)
-  (* no external tensor to be written has an embedded NUL in its path (os.path.samefile would raise
-     ValueError outside the try block, see C08_samefile_valueerror_refuted) *)
-  Definition nul_free : Prop :=
-    existsb (fun h => has_nul (tpath tens h)) (ext_handles (sc_tensors sc)) = false.
-
   Definition FinalA (c : ctl) (s : st) (r : sig) : Prop :=
     InvA s /\ r <> SOk
-    /\ (crash_at c = None -> nul_free ->
+    /\ (crash_at c = None ->
         (forall p, T tmpd p = true -> lookup (s_fs s) p = None) \/ In (OFail true) (s_trace s)).
   Definition FinalB (c : ctl) (s : st) (r : sig) : Prop :=
     exists d m s1, InvB d m s /\ InvA s1 /\ PreRepl c s1 d m
@@ -412,50 +418,54 @@ Section Decomp.
   (* a state in which nothing of the temporary area exists yet *)
   Definition TNone (s : st) : Prop := forall p, T tmpd p = true -> lookup (s_fs s) p = None.
 
-  Lemma pre_raise_TNone c s :
-    InvA s -> TNone s -> nul_free -> forall e, snd (exec_acts c PRE s) = SRaise e -> TNone (fst (exec_acts c PRE s)).
+  (* every action of PRE before mkdtemp is a probe: the file system is untouched whatever happens *)
+  Definition is_probe (a : act) : bool :=
+    match a with
+    | AIsLink _ | ARealpath _ | ASameFile _ _ | ASameFileNul _ _ | ASameFileAlias _ _ => true
+    | _ => false
+    end.
+
+  Lemma probe_fs c a s : is_probe a = true -> s_fs (fst (perform c a s)) = s_fs s.
   Proof.
-    intros HA HN Hnf e. unfold PRE, plan_pre.
-    set (probes := map (fun h => if has_nul (tpath tens h) then ASameFileNul (tpath tens h) (dest_of fs0 (sc_req sc))
-                                 else ASameFile (tpath tens h) (dest_of fs0 (sc_req sc))) (ext_handles (sc_tensors sc))).
-    assert (Hprobe : forall a s0, (exists p, a = AIsLink p) \/ (exists p, a = ARealpath p) \/ (exists p q, a = ASameFile p q) ->
-              (snd (perform c a s0) = SOk \/ snd (perform c a s0) = SCrash) /\ s_fs (fst (perform c a s0)) = s_fs s0).
-    { intros a s0 Ha. destruct Ha as [(p & ->)|[(p & ->)|(p & q & ->)]]; unfold perform; simpl;
-        rewrite andb_false_r; destruct (at_idx (crash_at c) (length (s_trace s0))); simpl; auto. }
-    assert (Hprobes : forall l s0, Forall (fun a => exists p q, a = ASameFile p q) l ->
-              forall e', snd (exec_acts c l s0) <> SRaise e').
-    { induction l as [|a r IH]; intros s0 Hl e'; simpl; [discriminate|].
-      inversion Hl as [|? ? Ha Hr]; subst.
-      destruct (Hprobe a s0 (or_intror (or_intror Ha))) as [Hs _].
-      destruct (perform c a s0) as [s' r']; simpl in *. destruct Hs as [-> | ->]; [apply IH; exact Hr|discriminate]. }
-    assert (Hmk : forall s0, TNone s0 -> forall e', snd (exec_acts c (AMkdtemp (sc_tmpd sc) :: probes) s0) = SRaise e' ->
-              TNone (fst (exec_acts c (AMkdtemp (sc_tmpd sc) :: probes) s0))).
-    { intros s0 HN0 e' Hr. rewrite exec_acts_cons in *.
-      assert (Hpr : forall s', snd (exec_acts c probes s') <> SRaise e').
-      { intros s'. apply Hprobes. unfold probes. apply Forall_forall. intros a Ha.
-        apply in_map_iff in Ha. destruct Ha as (h & <- & Hin).
-        assert (X : has_nul (tpath tens h) = false).
-        { unfold nul_free in Hnf. destruct (has_nul (tpath tens h)) eqn:E; [|reflexivity].
-          assert (Y : existsb (fun h => has_nul (tpath tens h)) (ext_handles (sc_tensors sc)) = true)
-            by (apply existsb_exists; exists h; auto). congruence. }
-        rewrite X. eauto. }
-      destruct (perform_cases c (AMkdtemp (sc_tmpd sc)) s0) as [E|[E|E]]; rewrite E in *.
-      - exact HN0.
-      - exact HN0.
-      - unfold sem in Hr |- *. change (sc_tmpd sc) with tmpd in Hr |- *. rewrite (HN0 tmpd T_tmpd) in Hr |- *.
-        destruct (parent_ok (s_fs s0) tmpd); cbn [commit] in Hr |- *.
-        + exfalso. eapply Hpr. exact Hr.
-        + exact HN0. }
-    simpl. destruct (Hprobe (AIsLink (sc_req sc)) s (or_introl (ex_intro _ _ eq_refl))) as [Hs Hfs].
-    destruct (perform c (AIsLink (sc_req sc)) s) as [s' r']; simpl in *.
-    destruct Hs as [-> | ->]; [|discriminate].
-    assert (HN' : TNone s') by (intros p Hp; rewrite Hfs; apply HN; exact Hp).
-    destruct (is_link fs0 (sc_req sc)); simpl.
-    - destruct (Hprobe (ARealpath (sc_req sc)) s' (or_intror (or_introl (ex_intro _ _ eq_refl)))) as [Hs2 Hfs2].
-      destruct (perform c (ARealpath (sc_req sc)) s') as [s2 r2]; simpl in *.
-      destruct Hs2 as [-> | ->]; [|discriminate].
-      apply Hmk. intros p Hp; rewrite Hfs2; apply HN'; exact Hp.
-    - apply Hmk. exact HN'.
+    intros Ha. destruct (perform_cases c a s) as [E|[E|E]]; rewrite E; try reflexivity.
+    rewrite fst_commit. destruct a; try discriminate; reflexivity.
+  Qed.
+
+  Lemma probes_fs c l : forall s, forallb is_probe l = true -> s_fs (fst (exec_acts c l s)) = s_fs s.
+  Proof.
+    induction l as [|a r IH]; intros s Hl; [reflexivity|].
+    simpl in Hl. apply andb_prop in Hl. destruct Hl as [Ha Hr]. rewrite exec_acts_cons.
+    pose proof (probe_fs c a s Ha) as Hp. destruct (perform c a s) as [s' [ |e| ]]; simpl in *; [|exact Hp|exact Hp].
+    rewrite IH; assumption.
+  Qed.
+
+  Lemma pre_raise_TNone c s :
+    InvA s -> TNone s -> forall e, snd (exec_acts c PRE s) = SRaise e -> TNone (fst (exec_acts c PRE s)).
+  Proof.
+    intros HA HN e. unfold PRE, plan_pre.
+    set (probes := (if is_link fs0 (sc_req sc) then [ARealpath (sc_req sc)] else [])
+                   ++ map (probe_act fs0 tens sc) (ext_handles (sc_tensors sc))).
+    replace (AIsLink (sc_req sc) :: (if is_link fs0 (sc_req sc) then [ARealpath (sc_req sc)] else [])
+               ++ map (probe_act fs0 tens sc) (ext_handles (sc_tensors sc)) ++ [AMkdtemp (sc_tmpd sc)])
+      with ((AIsLink (sc_req sc) :: probes) ++ [AMkdtemp (sc_tmpd sc)])
+      by (unfold probes; simpl; rewrite <- app_assoc; reflexivity).
+    assert (Hp : forallb is_probe (AIsLink (sc_req sc) :: probes) = true).
+    { simpl. unfold probes. rewrite forallb_app. apply andb_true_intro. split.
+      - destruct (is_link fs0 (sc_req sc)); reflexivity.
+      - apply forallb_map_const. intros h. unfold probe_act.
+        destruct (has_nul (tpath tens h)); [reflexivity|]. destruct (is_alias fs0 sc (tpath tens h)); reflexivity. }
+    rewrite exec_acts_app. pose proof (probes_fs c _ s Hp) as Hfs.
+    destruct (exec_acts c (AIsLink (sc_req sc) :: probes) s) as [s1 r1]. simpl in Hfs.
+    assert (HN1 : TNone s1) by (intros p Hq; rewrite Hfs; apply HN; exact Hq).
+    destruct r1; intros Hr; [|exact HN1|exact HN1].
+    rewrite exec_acts_cons in *.
+    destruct (perform_cases c (AMkdtemp (sc_tmpd sc)) s1) as [E|[E|E]]; rewrite E in *.
+    - exact HN1.
+    - exact HN1.
+    - unfold sem in Hr |- *. change (sc_tmpd sc) with tmpd in Hr |- *. rewrite (HN1 tmpd T_tmpd) in Hr |- *.
+      destruct (parent_ok (s_fs s1) tmpd); cbn [commit] in Hr |- *.
+      + simpl in Hr. discriminate.
+      + exact HN1.
   Qed.
 
   Lemma small_fs c s : s_fs (fst (exec_acts c (plan_small small) s)) = s_fs s.
@@ -493,21 +503,32 @@ Section Decomp.
     pose proof (exec_acts_nocrash c PRE s0) as Hnc1.
     destruct (exec_acts c PRE s0) as [s1 r1]. cbn [fst snd] in *.
     destruct r1 as [ |e| ].
-    2:{ left. split; [exact H1|split; [discriminate|]]. intros _ Hnf. left. eapply Hpr; [exact Hnf|reflexivity]. }
-    2:{ left. split; [exact H1|split; [discriminate|]]. intros Hc _. exfalso. apply (Hnc1 Hc). reflexivity. }
+    2:{ left. split; [exact H1|split; [discriminate|]]. intros _. left. eapply Hpr. reflexivity. }
+    2:{ left. split; [exact H1|split; [discriminate|]]. intros Hc. exfalso. apply (Hnc1 Hc). reflexivity. }
     rewrite exec_seq.
     destruct (try_spec c s1 H1) as [(HA & Hr & Hc)|(d & m & HB & HP & Hc)].
     - destruct (exec c TRY s1) as [s2 r2]. cbn [fst snd] in *. left.
-      destruct r2 as [ |e| ]; [congruence| |]; (split; [exact HA|split; [discriminate|]]); intros Hcr _;
+      destruct r2 as [ |e| ]; [congruence| |]; (split; [exact HA|split; [discriminate|]]); intros Hcr;
         destruct (Hc Hcr) as [_ [[X1 X2]|X]];
         solve [left; apply TNone_of_shape; [exact (proj1 HA)|exact X1|exact X2] | right; exact X].
     - destruct (exec c TRY s1) as [s2 r2]. cbn [fst snd] in *. right.
       destruct r2 as [ |e| ]; rewrite ?exec_pacts.
       + pose proof (B_acts d m c POST s2 POST_okB HB) as HB3.
         assert (Hpost : snd (exec_acts c POST s2) = SOk \/ snd (exec_acts c POST s2) = SCrash).
-        { unfold POST. generalize s2. induction ov as [|h r IH]; intros s; cbn [map]; [left; reflexivity|].
-          rewrite exec_acts_cons. unfold perform. simpl. rewrite andb_false_r.
-          destruct (at_idx (crash_at c) (length (s_trace s))); simpl; [right; reflexivity|apply IH]. }
+        { assert (Hall : forallb (fun a => match a with ARealpath _ | AInvalidate _ => true | _ => false end) POST = true).
+          { unfold POST, plan_post. simpl.
+            assert (X : forall l0, forallb (fun a => match a with ARealpath _ | AInvalidate _ => true | _ => false end)
+                      (flat_map (fun h => ARealpath (tpath tens h)
+                         :: (if realpath_is_dest fs0 tens sc h then [AInvalidate h] else [])) l0) = true).
+            { induction l0 as [|h r IH]; simpl; [reflexivity|].
+              destruct (realpath_is_dest fs0 tens sc h); simpl; exact IH. }
+            apply X. }
+          revert Hall. generalize POST. intros l. generalize s2. induction l as [|a r IH]; intros s Hl; [left; reflexivity|].
+          simpl in Hl. apply andb_prop in Hl. destruct Hl as [Ha Hr]. rewrite exec_acts_cons.
+          assert (Hs : snd (perform c a s) = SOk \/ snd (perform c a s) = SCrash).
+          { unfold perform. destruct a; try discriminate; simpl; rewrite ?andb_false_r;
+              destruct (at_idx (crash_at c) (length (s_trace s))); simpl; auto. }
+          destruct (perform c a s) as [s' r']; simpl in Hs. destruct Hs as [-> | ->]; [apply IH; exact Hr|right; reflexivity]. }
         pose proof (exec_acts_nocrash c POST s2) as Hnc.
         destruct (exec_acts c POST s2) as [s3 r3]. cbn [fst snd] in *.
         exists d, m, s1. split; [exact HB3|split; [exact H1|split; [exact HP|]]]. intros Hcr.
